@@ -26,14 +26,21 @@
    (processRequest / processResponse look the accessor up under the transaction
    id) with the harness's version marker, suite "routing".
 
-   Case format (harness -> cases.v):  (d0, [(split action, got, retained)])
+   Case format (harness -> cases.v):  (d0, [E <split action> got ver (Obs ...)])
      d0        token of the initial PoliciesData (version 1)
      got       for Get: token of the object returned, -1 for an object that was
                never supplied (the empty PoliciesData fallback); 0 otherwise;
                -2 for an operation that did not complete while an update was
                inside its HAProxy call (blocked; the model never says so)
-     retained  tokens of the objects still in policiesVersions after the action,
-               in version order *)
+     ver       for Get: txnVersions[txn] read after the look-up (o_ver); 0 otherwise
+     (times)   all instants are nanoseconds since the start of the history
+     Obs       (None = unchanged) accessor state read after the action: objects still in
+               policiesVersions in version order, currentVersion, txnVersions
+               sorted by transaction, entries of the two vacuum queues
+
+   The finer granularity (every mutex section of GetTxnPoliciesData,
+   setNextVersion + VacuumKey and MapVacuum.vacuum() as a step of its own,
+   any interleaving of them) is Fine.v. *)
 From Coq Require Import List ZArith Bool.
 Import ListNotations.
 Open Scope Z_scope.
@@ -368,7 +375,29 @@ Definition commits (u : Z) (h : list sact) : bool :=
 
 (* ---- correspondence entry point ---- *)
 
-Definition case := (Z * list (sact * Z * list Z))%type.
+(* What the harness reads off the accessor after every action (shims
+   VerifC11Retained / VerifC11State): the objects still retained in version
+   order, currentVersion, txnVersions (sorted by transaction id) and the entry
+   queues of the two vacuums as (vacuumAt, key) in queue order. *)
+Record obs := Obs {
+  ob_mid : bool;   (* read inside setNextVersion, between its Lock section and the
+                      append of VacuumKey(previous): the model's last version-queue
+                      entry is not there yet (look-ups placed at that clock reading) *)
+  ob_ret : list Z;
+  ob_cur : Z;
+  ob_pins : list (Z * Z);
+  ob_tq : list (Z * Z);
+  ob_vq : list (Z * Z)
+}.
+
+(* one executed action: the action, the object handed out ([got], see the head
+   of this file), for a look-up the version the transaction is anchored to
+   afterwards (0 otherwise), and the accessor state read afterwards *)
+(* [o = None]: the harness read exactly the same state as after the previous
+   action (as at the start for the first one); keeps the case files small *)
+Inductive ev := E (a : sact) (got ver : Z) (o : option obs).
+
+Definition case := (Z * list ev)%type.
 
 Definition got_of (o : option out) : Z :=
   match o with
@@ -377,15 +406,8 @@ Definition got_of (o : option out) : Z :=
   | None => 0
   end.
 
-(* the model's (got, retained) after every action *)
-Fixpoint strace (s : sst) (h : list sact) : list (Z * list Z) :=
-  match h with
-  | [] => []
-  | a :: r =>
-      let '(s', o) := sstep_v code_variant s a in
-      ((if blocked_by_inflight code_variant s a then blocked_code else got_of o),
-       map snd (vers (base s'))) :: strace s' r
-  end.
+Definition ver_of (o : option out) : Z :=
+  match o with Some x => o_ver x | None => 0 end.
 
 Fixpoint eq_zs (a b : list Z) : bool :=
   match a, b with
@@ -394,20 +416,51 @@ Fixpoint eq_zs (a b : list Z) : bool :=
   | _, _ => false
   end.
 
-Fixpoint eq_tr (a b : list (Z * list Z)) : bool :=
+Fixpoint eq_zzs (a b : list (Z * Z)) : bool :=
   match a, b with
   | [], [] => true
-  | (x, l) :: a', (y, m) :: b' => (x =? y) && eq_zs l m && eq_tr a' b'
+  | (x, x') :: a', (y, y') :: b' => (x =? y) && (x' =? y') && eq_zzs a' b'
   | _, _ => false
+  end.
+
+(* a Go map read back as a key-sorted list against the model's association
+   list (keys are unique on both sides): same size, same value under every key *)
+Definition eq_map (observed : list (Z * Z)) (m : amap) : bool :=
+  (Nat.eqb (length observed) (length m)) &&
+  forallb (fun e => match lookup (fst e) m with Some v => v =? snd e | None => false end) observed.
+
+(* the observed accessor state against the model state; a blocked operation
+   (nothing could be read) is only compared through [got] *)
+Definition eq_obs (o : obs) (s : st) : bool :=
+  eq_zs (ob_ret o) (map snd (vers s)) && (ob_cur o =? cur s) &&
+  eq_map (ob_pins o) (pins s) && eq_zzs (ob_tq o) (txnQ s) &&
+  eq_zzs (ob_vq o) (if ob_mid o then removelast (verQ s) else verQ s).
+
+(* what the model says after an action, in the harness's format *)
+Definition obs_of (s : st) : obs :=
+  {| ob_mid := false; ob_ret := map snd (vers s); ob_cur := cur s; ob_pins := pins s;
+     ob_tq := txnQ s; ob_vq := verQ s |}.
+
+(* index of the first action on which model and implementation differ, with
+   what the model says there (got, version, state) *)
+Definition obs_or (last : obs) (o : option obs) : obs :=
+  match o with Some x => x | None => last end.
+
+Fixpoint scheck (n : nat) (s : sst) (last : obs) (h : list ev) : option (nat * (Z * Z * obs)) :=
+  match h with
+  | [] => None
+  | E a got ver o :: r =>
+      let '(s', x) := sstep_v code_variant s a in
+      let g := if blocked_by_inflight code_variant s a then blocked_code else got_of x in
+      if (g =? got) && (ver_of x =? ver) && eq_obs (obs_or last o) (base s')
+      then scheck (S n) s' (obs_or last o) r
+      else Some (n, (g, ver_of x, obs_of (base s')))
   end.
 
 (* the harness prints got = 0 for everything that is not a look-up, and
    blocked_code for an operation that did not complete inside a call window *)
-Definition run_case (k : case) : option (list (Z * list Z)) :=
-  let '(d0, evs) := k in
-  let m := strace (sinit d0) (map (fun e => fst (fst e)) evs) in
-  let observed := map (fun e => (snd (fst e), snd e)) evs in
-  if eq_tr m observed then None else Some m.
+Definition run_case (k : case) : option (nat * (Z * Z * obs)) :=
+  let '(d0, evs) := k in scheck O (sinit d0) (obs_of (init d0)) evs.
 
 (* ================================================================== *)
 (* routing/messages_handler.go, policy (legacy) mode                    *)
@@ -479,8 +532,8 @@ Definition proj (a : ract) : sact :=
 
 (* ---- correspondence entry point, suite "routing" ---- *)
 
-Definition rcase := (Z * list (ract * Z * list Z))%type.
-
+(* (observable, retained objects) after every action of a routing history —
+   used by the examples of Property.v *)
 Fixpoint rtrace (s : rst) (h : list ract) : list (Z * list Z) :=
   match h with
   | [] => []
@@ -490,8 +543,29 @@ Fixpoint rtrace (s : rst) (h : list ract) : list (Z * list Z) :=
        map snd (vers (base (acc s')))) :: rtrace s' r
   end.
 
-Definition run_rcase (k : rcase) : option (list (Z * list Z)) :=
-  let '(d0, evs) := k in
-  let m := rtrace (rinit d0) (map (fun e => fst (fst e)) evs) in
-  let observed := map (fun e => (snd (fst e), snd e)) evs in
-  if eq_tr m observed then None else Some m.
+(* [got] = retry flag of a response (object handed out for a bare accessor
+   look-up); [ver] = version the transaction of a request / response / look-up
+   is anchored to afterwards *)
+Inductive rev := RE (a : ract) (got ver : Z) (o : option obs).
+
+Definition rcase := (Z * list rev)%type.
+
+Definition rver (s : rst) (a : ract) : Z :=
+  match proj a with
+  | A (Get id now) => o_ver (snd (get (base (acc s)) id now))
+  | _ => 0
+  end.
+
+Fixpoint rcheck (n : nat) (s : rst) (last : obs) (h : list rev) : option (nat * (Z * Z * obs)) :=
+  match h with
+  | [] => None
+  | RE a got ver o :: r =>
+      let '(s', x) := rstep s a in
+      let g := if blocked_by_inflight code_variant (acc s) (proj a) then blocked_code else x in
+      if (g =? got) && (rver s a =? ver) && eq_obs (obs_or last o) (base (acc s'))
+      then rcheck (S n) s' (obs_or last o) r
+      else Some (n, (g, rver s a, obs_of (base (acc s'))))
+  end.
+
+Definition run_rcase (k : rcase) : option (nat * (Z * Z * obs)) :=
+  let '(d0, evs) := k in rcheck O (rinit d0) (obs_of (init d0)) evs.
